@@ -11,6 +11,26 @@ CHECKS = {
          "Every crypt-table entry and every ≤2-byte UTF-8 string is compared with an independent transcription of the published MPQ hash for all four hash types; 60k (quick) / 2M (thorough) generated names add equality, case/slash invariance and het_hash-vs-lookup3 for widths 8..64; the cipher is inverted and compared with the reference for every small length and for random buffers up to 64 KiB incl. lengths not divisible by 4. Exploration is the right level: the domain is infinite, the small sub-domains are enumerated completely.",
          "Trusted: my reference transcriptions (self-checked against published constants: (hash table)/(block table) keys, spec hash examples, lookup3 driver vectors). Non-UTF-8 byte strings cannot be passed through the &str API. Cipher-vs-reference equality is not demanded for key 0.",
          "DESIGN.md §4 C04"),
+ "C05": ("exploration",
+         "deterministic structured mutation of valid seeds (prefixes, boundary-value substitution incl. inside decrypted MPQ tables, chunk delete/dup/swap/resize, seeded havoc, garbage) judged in supervised worker processes with a tracking allocator, CPU budget and panic capture",
+         "≈143k (quick) mutated inputs over 13 format families (MPQ archives V1..V4, COPY/BSD0 patch files, compressed streams for 11 method bytes, M2, skin, anim, ADT, WMO root/group, BLP, DBC, WDT, WDL — 110 valid seeds built with the crates' own writers) are run through every public open/parse/list/read entry point. A case fails if the worker panics, aborts, overflows its stack, exceeds 10 CPU-seconds, or requests one allocation above max(64 MiB, 256×input) or more than 1 GiB live; the first /repo frame of an oversized allocation or the panic site is the signature. Exploration is the only honest level for a ∀-bytes property.",
+         "Engine B of the design (coverage-guided libFuzzer targets) was not built in this round; absence of crashes outside the explored inputs is not shown. Results are not judged, only totality. Open findings are listed by signature; most of what the first run found has since been fixed in /repo.",
+         "DESIGN.md §4 C05, §7"),
+ "C08": ("exploration",
+         "model-based operation histories (bounded-exhaustive ≤3/≤4 over a 22-letter alphabet + proptest histories) against a priority-list model; differential testing of PTCH/BSD0/COPY application against an independent RLE+BSDIFF40+MD5 reference on patches built from random edit scripts; enumerated field/byte alterations in supervised workers with a tracking allocator; archive-level patch entries written by an independent MPQ writer",
+         "On every explored history of add/remove/set-priority/clear, read_file, contains_file, find_file_archive and list agree with the model (highest priority wins, earliest added among equals, listing is the union, absent names not found) — 11 662 short histories quick / 256 566 thorough, random histories over up to 4 archives, sequential and parallel construction. Every accepted well-formed COPY or BSD0 patch yields exactly the reference result with the declared digest; every altered patch is rejected or yields bytes matching the digests it declares; no panic or out-of-proportion allocation.",
+         "Bounded-exhaustive only for short histories over 3 fixed archives; an Err on a valid patch is permitted by the statement (valid patches with interior negative seeks are in fact always rejected — counted); no claim about rayon schedules, listfile-less members or duplicate membership. Five open findings.",
+         "DESIGN.md §4 C08"),
+ "C11": ("exploration",
+         "property-based testing of the real CLI process: grammar-generated hostile archive names, recursive filesystem-snapshot oracle over a fully observed sandbox, kernel-confined (Landlock) child",
+         "Over 2 144 (quick) / 40 144 (thorough) runs of `warcraft-rs mpq extract` on generated archives (27 hostile-name token classes × preserve-paths × 0–2 patch archives × explicit/whole × skip-errors × threads × listfile kinds) every filesystem change in the sandbox must be inside the requested output directory; an EACCES from the confinement is a second observation channel. The confirmed --preserve-paths escape (net-escaping `..` or absolute name; both extraction branches) is measured by 32 fixed canaries and excluded from the random volume while open.",
+         "Exit status not judged (C20); unix path semantics only; no pre-existing symlinks in OUT. Needs Linux ≥ 5.13 with Landlock (exit 2 otherwise): the child is never started unconfined.",
+         "DESIGN.md §4 C11"),
+ "C20": ("exploration",
+         "proptest + deterministic grid enumeration over every sub-command announced by --help; process-level differential against the library evaluated in a supervised worker",
+         "Generated file sets and library-built archives are pushed through the real warcraft-rs binary (fresh sandbox per run) and compared with the input bytes and with wow_mpq's own list/get_info/read_file. Every sub-command announced by --help (103 argument templates; a new sub-command without a template fails the check) is run on valid, truncated, mutated, garbage, empty and nonexistent inputs; the library's in-process entry point decides 'must exit non-zero' and the library's parser decides 'exit 0 means the output is complete'.",
+         "Text wording, dbd input validity and `mpq db` are not judged. Damaged inputs the library accepts give no verdict, except empty or magic-less files. Exit-code values beyond zero/non-zero are not distinguished. 11 open signatures (3 CLI defects, 8 library-leniency signatures).",
+         "DESIGN.md §4 C20"),
  "C01": ("exploration",
          "proptest-generated archive specs + bounded-exhaustive configuration grid; round-trip oracle against generator ground truth, listing and absent-name (collision-searched) probes",
          "Archives are generated over version × sector shift × CRC × attributes × listfile × table compression × per-file method/encryption/size class/content class (sizes placed at S−1, S, S+1, kS/2±2; content that makes some sectors raw and others compressed); every added file is read back under five spellings and compared with the generator's bytes, the listing is compared as a set with sizes, and never-added names (edits, prefixes, names searched to collide with a hash-table start slot or an 8-bit HET hash) must be not-found. A deterministic grid (version × shift{0,3} × 12 selectors × 3 encryption modes × CRC × 9 size classes × content) reaches every essential class whatever the seed. Exploration, not proof: the space is unbounded.",
